@@ -216,12 +216,15 @@ Definition receive (w : wallet) (slate amount ttl : N) (dest : option N) (crypto
     else
       let height := lookup (w_confh w) (w_active w) in
       let '(w1, key) := next_child w in
+      (* the slate's signature data is checked once the key is drawn and before anything else
+         is written (the C07 [fix:]; before it the output and the entry were written first) *)
+      if negb crypto_ok then (w1, Err ECrypto) else
       let '(w2, id) := next_log_id w1 parent in
       let o := mkO parent key None amount Unconfirmed height 0 false (Some id) in
       let t := mkT parent id (Some slate) TReceived false amount 0 None
-                   (if ttl =? 0 then None else Some ttl) 0 1 crypto_ok false in
+                   (if ttl =? 0 then None else Some ttl) 0 1 true false in
       let w3 := with_log (with_outs w2 (save_out (w_outs w2) o)) (save_tx (w_log w2) t) in
-      (w3, if crypto_ok then Ok tt else Err ECrypto)
+      (w3, Ok tt)
   end.
 
 (* ------------------------------------------------------------------ lock_tx_context *)
